@@ -17,7 +17,8 @@ SetOf(arr) == {arr[i] : i \in DOMAIN arr}
 
 TraceInit ==
   /\ l = 1 /\ drift = 0 /\ viol = {}
-  /\ conf = [keys |-> {}, aud |-> "", iss |-> ""]
+  /\ conf = [keys |-> {}, aud |-> "", iss |-> "", noDisc |-> FALSE]
+  /\ now = "before" /\ seen = FALSE
   /\ tok = [alg |-> "", signer |-> "", tamper |-> "", exp |-> "", nbf |-> "", aud |-> "", iss |-> "", kid |-> "",
             eps |-> {}]
   /\ hdr = [x |-> "", authz |-> "", scheme |-> ""]
@@ -41,6 +42,10 @@ Violations(e) ==
     LET r == Routed(tgt') IN
     (IF e.status = 101 /\ (~Permitted(tok'.eps, r) \/ e.reg # r) THEN {"ListenOnlyPermitted"} ELSE {})
     \cup (IF ~Permitted(tok'.eps, r) /\ (e.status # 401 \/ e.reg # "") THEN {"ListenOnlyPermitted"} ELSE {})
+  ELSE IF e.op = "TenantAuth" THEN
+    \* a plain request to a route of the upstream port that has a tenant table
+    (IF Ran(e) /\ ~TenantValid' THEN {"OnlyAcceptedRun"} ELSE {})
+    \cup (IF e.status < 0 THEN {"TransportError"} ELSE {})
   ELSE IF e.op = "Tenant" THEN
     (IF (e.status = 101) # TenantValid' THEN {"TenantIsolation"} ELSE {})
     \cup (IF e.status \notin {101, 401} THEN {"TransportError"} ELSE {})
@@ -55,13 +60,16 @@ Predicted(e) ==
     ELSE IF ~Permitted(tok'.eps, r) THEN e.status = 401
     ELSE e.status # 401
   ELSE IF e.op = "Listen" THEN (e.status = 101) = Permitted(tok'.eps, Routed(tgt'))
+  ELSE IF e.op = "TenantAuth" THEN Ran(e) = TenantAccept'
   ELSE TRUE
 
 TraceNext ==
   /\ l <= Len(Log)
   /\ l' = l + 1
   /\ LET e == Log[l] IN
-     /\ conf' = [keys |-> SetOf(e.conf.keys), aud |-> e.conf.aud, iss |-> e.conf.iss]
+     /\ conf' = [keys |-> SetOf(e.conf.keys), aud |-> e.conf.aud, iss |-> e.conf.iss, noDisc |-> e.conf.noDisc]
+     /\ now' = IF e.when = "after" THEN "after" ELSE "before"
+     /\ seen' = e.seen
      /\ tok' = [alg |-> e.tok.alg, signer |-> e.tok.signer, tamper |-> e.tok.tamper, exp |-> e.tok.exp,
                 nbf |-> e.tok.nbf, aud |-> e.tok.aud, iss |-> e.tok.iss, kid |-> e.tok.kid,
                 eps |-> SetOf(e.tok.eps)]
